@@ -1,4 +1,4 @@
-"""Mechanically generated spec corpus: every ordered pair (and every single) of 38 instruction templates in seven
+"""Mechanically generated spec corpus: every ordered pair (and every single) of 40 instruction templates in seven
 contexts (top level, inside <chunked>, inside a <case>, inside a <case> inside <chunked>, after a <chunked>,
 and `byte; <chunked>A</chunked>; B`: raw data ahead of a break-less chunked section with a tail; and `<chunked>A<break/>B</chunked>`).
 
@@ -16,6 +16,7 @@ HERE = os.path.dirname(os.path.dirname(os.path.abspath(__file__)))
 CORE = os.path.join(HERE, "corpus", "core", "xml")
 
 # name, xml, flags: C = needs a chunked context, O = starts (and ends) with an optional instruction,
+#                   E = starts required but ends with an optional instruction,
 #                   D = dummy (nothing may follow), B = <break/> (resets the optional state)
 TEMPLATES = [
     ("char", '<field name="{p}c" type="char"/>', ""),
@@ -49,6 +50,8 @@ TEMPLATES = [
     ("optchar", '<field name="{p}oc" type="char" optional="true"/>', "O"),
     ("optstr", '<field name="{p}os" type="string" length="2" optional="true"/>', "O"),
     ("optarr", '<array name="{p}oa" type="short" optional="true"/>', "O"),
+    ("lenoptarr", '<length name="{p}ol" type="char"/><array name="{p}ola" type="short" length="{p}ol" optional="true"/>', "E"),
+    ("optlenstr", '<length name="{p}pl" type="char" optional="true"/><field name="{p}pls" type="string" length="{p}pl" optional="true"/>', "O"),
     ("hard", '<field type="char">7</field>', ""),
     ("hardstr", '<field name="{p}hs" type="string" length="2">ok</field>', ""),
     ("dummy", '<dummy type="short">0</dummy>', "D"),
@@ -69,6 +72,10 @@ def _cleanup():
 
 
 atexit.register(_cleanup)
+
+
+def ends_opt(flags):
+    return "O" in flags or "E" in flags
 
 
 def in_chunk(ctx):
@@ -93,7 +100,7 @@ def valid(ctx, a, b):
         fb = TEMPLATES[b][2]
         if "C" in fb:
             return False
-        if "O" in fa and not ("O" in fb or "D" in fb):
+        if ends_opt(fa) and not ("O" in fb or "D" in fb):
             return False
         return True
     fa = TEMPLATES[a][2]
@@ -106,7 +113,7 @@ def valid(ctx, a, b):
         return False
     if "D" in fa:
         return False                      # nothing may follow a dummy
-    if "O" in fa and not ("O" in fb or "B" in fb or "D" in fb):
+    if ends_opt(fa) and not ("O" in fb or "B" in fb or "D" in fb):
         return False                      # required instruction after an optional one
     return True
 
@@ -145,7 +152,7 @@ def valid_triple(ctx, a, b, c):
         return False
     # optional state after B: set by an optional B, cleared by a break, otherwise inherited from A
     fa = TEMPLATES[a][2]
-    opt = ("O" in fb) or ("O" in fa and "B" not in fb)
+    opt = ends_opt(fb) or (ends_opt(fa) and "B" not in fb)
     if opt and not ("O" in fc or "B" in fc or "D" in fc):
         return False
     return True
